@@ -12,6 +12,7 @@ From CGgen Require Import Consts.
 From CG Require Import Model.Tpl.
 From CG Require Import Model.Quote.
 From CG Require Import Spec.ShellDQ.
+From CG Require Import Model.Tables.
 (* add new Require lines above this line *)
 Require Import ExtrOcamlBasic ExtrOcamlString.
 Extraction Language OCaml.
@@ -30,5 +31,8 @@ Separate Extraction
   ShellDQ.read
   ShellDQ.read_list
   ShellDQ.admissibleb
+  Tables.all_tables
+  Tables.valid_orders
+  Tables.isomorphic_to
   (* add new roots above this line *)
   Prelude.pow2.
